@@ -12,7 +12,7 @@ None == "none"
 \*
 \* Events (one per handshake message / environment action, all connections pre-accepted):
 \*  Msg: c, k ("FC" | "P1" | "P2"), id (claimed client name or "none"), type ("control" | "tunnel"),
-\*       key  (whose secret keyed the response: a client name, or "garbage"),
+\*       key  (whose secret keyed the response: a client name, "empty" = the empty key, or "garbage"),
 \*       over (index of the challenge of connection c the response was computed over, 0 = none),
 \*       out  [got, success, need, newid (identity issued, or "none"), nonce (index of the challenge
 \*             carried by the response, 0 = none)],
@@ -36,7 +36,7 @@ PreAuthd(d)  == IF hasPre /\ d \in DOMAIN pre.conns THEN pre.conns[d].authd ELSE
 PreCid(d)    == IF hasPre /\ d \in DOMAIN pre.conns THEN pre.conns[d].cid ELSE None
 PreLookup(X) == IF hasPre /\ X \in DOMAIN pre.lookup THEN pre.lookup[X] ELSE None
 
-KeyClass(e)   == IF e.key = e.id THEN "own" ELSE IF e.key = "garbage" THEN "garbage" ELSE "foreign"
+KeyClass(e)   == IF e.key = e.id THEN "own" ELSE IF e.key = "garbage" THEN "garbage" ELSE IF e.key = "empty" THEN "empty" ELSE "foreign"
 NonceClass(e) == IF e.over = 0 THEN "none"
                  ELSE IF <<e.c, e.over>> \in usedN THEN "used"
                  ELSE IF e.over = Latest(e.c) THEN "latest" ELSE "stale"
